@@ -16,7 +16,7 @@ PLAN = {}
 
 PLAN["C01"] = dict(
     level="proof",
-    functions=[(CONV, "merge_nodes"), (CONV, "to_stable"), (UTILS, "search_intervals"), (CONV, "to_unstable#filter"), (INDEX, "convert_coord#filter")],
+    functions=[(CONV, "merge_nodes"), (CONV, "to_stable"), (UTILS, "search_intervals"), (CONV, "to_unstable#filter"), (INDEX, "convert_coord#filter"), (GFA, "GFA.get_path")],
     explanation="Base-identity formulation (DESIGN 3.2): a record designates the map path-offset -> (contig, position, orientation). "
                 "merge_nodes and the whole of to_stable (token loop, merge loop with ghost prefix arrays S/U/run_of, collapse branch, "
                 "field-list output, tag loop) are verified for every path length; the postcondition states, over the OUTPUT LINE's own "
@@ -41,10 +41,11 @@ PLAN["C01"] = dict(
 
 PLAN["C08"] = dict(
     level="proof",
-    functions=[(SORT, "compare_gaf")],
+    functions=[(SORT, "compare_gaf"), (SORT, "process_alignment#body")],
     extra={(SORT, "compare_gaf"): sort_c.relational_obligations},
     explanation="compare_gaf is verified against the lexicographic key (untagged, BO, NO, start, offset) on every path, and antisymmetry / "
-                "transitivity / totality are proved directly on the code (three symbolic records).",
+                "transitivity / totality are proved directly on the code (three symbolic records). process_alignment's body (anchor = last node iff "
+                "strictly more tagged scaffold steps are '<' than '>', (BO, NO) of the anchor, start on the anchor side) is verified for every path length.",
     trusted_base=["assumed: list.sort(key=cmp_to_key(f)) yields a permutation sorted w.r.t. f whenever f is a strict total order (CPython)"],
     not_applicable_clauses=[],
     mutations=[
@@ -154,8 +155,9 @@ PLAN["C10"] = dict(
 
 PLAN["C03"] = dict(
     level="proof",
-    functions=[(INDEX, "run#index-loop"), (INDEX, "convert_coord#filter"), (UTILS, "search_intervals")],
-    explanation="The indexing loop of index.run against the abstract reader contract, for files of any length: ghost witnesses make both "
+    functions=[(INDEX, "run#index-loop"), (INDEX, "convert_coord#filter"), (UTILS, "search_intervals"), (GFA, "GFA.get_path")],
+    explanation="GFA.get_path hands over the contig's segments sorted by SO (all of them when called with throw_warning=False, as index and view do) - "
+                "the sortedness precondition of search_intervals. The indexing loop of index.run against the abstract reader contract, for files of any length: ghost witnesses make both "
                 "directions explicit without existentials: (A) for every record j and every node p it traverses (convert_coord(record) for "
                 "stable GAFs, the names of the path column otherwise), the entry keyed (id, SN, SO, SO+LN) of that node lists off(j); (B) every "
                 "offset listed under a key is off(j) of a record j that traverses that key's node; no empty entry; the offset is the tell() taken "
